@@ -321,11 +321,20 @@ package plugins
 //@   requires w != nil && r != nil && r.URL != nil && next != nil
 //@   ensures next_exactly_once: calls(next) == 1
 //@   modifies *
+// the request-id plugin (C16): an identifier the request already carries - supplied by the client, or put there
+// by the logging middleware that runs outside the plugin chain - reaches the backend and the client unchanged;
+// the plugin only generates one when there is none.
+//@ ghost var idPassedOn String
+//@ ghost var idEchoed String
 //@ func init#3$1$1$1
-//@   props C17
+//@   props C17 C16
 //@   may_panic
 //@   requires w != nil && r != nil && r.Header != nil && next != nil
+//@   ghost before ServeHTTP :: idPassedOn := r.Header.vals["X-Request-ID"]
+//@   ghost before ServeHTTP :: idEchoed := hdrOf(w, "X-Request-ID")
 //@   ensures next_exactly_once: calls(next) == 1
+//@   ensures an_identifier_already_present_is_passed_on_and_echoed_unchanged: old(r.Header.vals["X-Request-ID"]) != ""
+//@             ==> idPassedOn == old(r.Header.vals["X-Request-ID"]) && idEchoed == old(r.Header.vals["X-Request-ID"])
 //@   modifies *
 
 // size_limit options: every YAML numeric spelling of a positive limit is accepted, everything else refused
